@@ -283,6 +283,33 @@ func c08Escapes(r *lp.Run) {
 		check(`\`+strconv.FormatInt(int64(v), 8), rune(v))
 	}
 	check(`\0`, 0)
+	// beyond three digits / beyond \377 the escape ends early and the remaining digits are literals (Annex B)
+	for _, c := range []struct {
+		p, yes string
+		no     []string
+	}{
+		{`^\400$`, " 0", []string{"\u0100", "\x100"}}, {`^\477$`, "'7", []string{"\u013f"}}, {`^\777$`, "?7", []string{"\u01ff"}},
+		{`^\1234$`, "S4", []string{"\u029c"}}, {`^\0377$`, "\x1f7", []string{"\u00ff"}}, {`^\3777$`, "\u00ff7", []string{"\u07ff"}}, {`^\1010$`, "A0", []string{"\u0208"}},
+		{`^[\400]$`, " ", []string{"\u0100"}}, {`^[\400]$`, "0", nil},
+	} {
+		re, err := ogenregex.Compile(c.p)
+		r.Count("escape-long "+c.p+c.yes, "escape-long", true)
+		r.PropCheck()
+		in := map[string]string{"pattern": c.p}
+		if err != nil {
+			r.Fail(lp.PropFail{Property: "C08", What: "an escape of the portable grammar does not compile", Input: in, Observed: err.Error(), Expected: "compiles"})
+			continue
+		}
+		unq := func(s string) string { u, err := strconv.Unquote(`"` + s + `"`); if err != nil { return s }; return u }
+		if ok, _ := re.MatchString(unq(c.yes)); !ok {
+			r.Fail(lp.PropFail{Property: "C08", What: "a legacy octal escape swallows more than three digits / more than \\377", Input: in, Observed: "does not match " + strconv.Quote(unq(c.yes)), Expected: "matches"})
+		}
+		for _, n := range c.no {
+			if ok, _ := re.MatchString(unq(n)); ok {
+				r.Fail(lp.PropFail{Property: "C08", What: "a legacy octal escape swallows more than three digits / more than \\377", Input: in, Observed: "matches " + strconv.Quote(unq(n)), Expected: "no match"})
+			}
+		}
+	}
 }
 
 // patterns made of class edge cases and nothing the converter would otherwise have to touch (no backslash, dot or
